@@ -8,6 +8,7 @@ require (
 	github.com/bnb-chain/tss-lib/v2 v2.0.0
 	github.com/btcsuite/btcd/btcec/v2 v2.3.2
 	golang.org/x/crypto v0.13.0
+	google.golang.org/protobuf v1.31.0
 	pgregory.net/rapid v1.3.0
 )
 
@@ -29,7 +30,6 @@ require (
 	go.uber.org/atomic v1.7.0 // indirect
 	go.uber.org/multierr v1.6.0 // indirect
 	go.uber.org/zap v1.16.0 // indirect
-	google.golang.org/protobuf v1.31.0 // indirect
 )
 
 replace github.com/bnb-chain/tss-lib/v2 => /repo
